@@ -76,6 +76,16 @@ JudgeGeometry(g) ==
     ELSE IF g.w_sq_mask # g.k_sq_entries - 1 \/ g.w_cq_mask # g.k_cq_entries - 1 THEN "ring_mask_differs_from_kernel"
     ELSE ""
 
+\* one lap over a whole ring: every slot of the submission ring filled once (entries numbered 1..n), submitted in one
+\* go, every completion reaped: each number exactly once
+JudgeLap(l) ==
+    IF l.filled # l.n THEN "slot_refused_on_drained_ring"
+    ELSE IF l.unknown > 0 THEN "completion_with_unknown_user_data"
+    ELSE IF l.dups > 0 THEN "duplicate_completion"
+    ELSE IF l.completed # l.n THEN "missing_completion"
+    ELSE IF l.bad_res > 0 THEN "result_differs_from_direct_call"
+    ELSE ""
+
 JudgeClauses == {"wrapper_panicked", "slot_refused_on_drained_ring", "enter_failed",
                  "completion_with_unknown_user_data", "duplicate_completion", "missing_completion",
                  "cancelled_without_failed_predecessor", "result_differs_from_direct_call", "linked_operations_completed_out_of_order",
